@@ -5,6 +5,7 @@ import SphericalVerif.Model.Matrix
 import SphericalVerif.Lemmas.Matrix
 import SphericalVerif.Props.GenMethod
 import SphericalVerif.Props.Matrix
+import SphericalVerif.Lemmas.Frame
 /-! GenRotM — **`_rotate` (the matrix route, the DEFAULT strategy of `Wigner.rotate` / `Modes.rotate`) as the Python text states it** is the
     model's `rotateMatrixEntry`.
 
@@ -282,5 +283,41 @@ theorem evaluate_matrix_rotor_doc (Lc P : Nat) (c : Nat) (sw : Int) (zI aI YI fv
           (if sw.natAbs ≤ ell then (((-1) ^ sw.natAbs * Real.sqrt ((2 * (ell : ℝ) + 1) / (4 * Real.pi)) : ℝ) : ℂ)
               * DDef.docD ell (DDef.Ra (R 0) (R 3)) (DDef.Rb (R 1) (R 2)) m (-sw) else 0) :=
   evaluate_matrix_route_doc Lc P c sw zI aI YI fv a b d g h ht imsqrt hsq cpowi R hR hY F hz ha hza hsP hsLc mw L hL hn
+end
+
+/-! ### footprints of the matrix routes -/
+section
+open Frame
+variable {α : Type} [Scalar α] {φ : Type} [FMem φ α] [LawfulFMem φ α]
+
+theorem rotate_only (flm : Int → Cx α) (A : Nat) (a1 a2 a3 a4 a5 a6 : Int) (D : Int → Cx α) (n0 n1 n2 : Int) (st : φ) :
+    Only α [A] st (Gen.u_rotate (α := α) flm A a1 a2 a3 a4 a5 a6 D n0 n1 n2 st) := by
+  unfold Gen.u_rotate; simp only []; repeat frame_step
+
+theorem contract_only (mw Y : Int → Cx α) (fv : Nat) (a1 a2 a3 n0 n1 : Int) (st : φ) :
+    Only α [fv] st (Gen.Wigner_evaluate_matrix_contract (α := α) mw Y fv a1 a2 a3 n0 n1 st) := by
+  unfold Gen.Wigner_evaluate_matrix_contract; simp only []; repeat frame_step
+
+/-- the default route of `Wigner.rotate` writes its workspace parts, the fresh 𝔇 array and its output, nothing else -/
+theorem rotate_matrix_body_only (R : Int → α) (zI : Nat) (g h : Int → α) (L P : Int) (a b d : Int → α) (Hw Hv Hx DI aI : Nat) (imsqrt : Cx α → α) (gI : Nat)
+    (cmin : Int) (flm : Int → Cx α) (A : Nat) (e1 e2 sw n0 n1 n2 : Int) (st : φ) :
+    Only α [Hw, Hv, Hx, zI, aI, gI, DI, A] st
+      (Gen.Wigner_rotate_matrix_body (α := α) R zI g h L P a b d Hw Hv Hx DI aI imsqrt gI cmin flm A e1 e2 sw n0 n1 n2 st) := by
+  unfold Gen.Wigner_rotate_matrix_body
+  simp only []
+  refine Only.trans _ _ _ _ ?_ (Only.mono _ _ _ _ (by intro x hx; simp only [List.mem_cons, List.mem_singleton, List.not_mem_nil, or_false] at hx ⊢; tauto) (rotate_only _ A _ _ _ _ _ _ _ _ _ _ _))
+  exact Only.mono _ _ _ _ (by intro x hx; simp only [List.mem_cons, List.mem_singleton, List.not_mem_nil, or_false] at hx ⊢; tauto)
+    (GenMethod.D_rotor_only R zI g h L P a b d Hw Hv Hx DI aI imsqrt gI cmin st)
+
+/-- the default route of `Wigner.evaluate`, one rotor: workspace parts, the array `Y`, the output column -/
+theorem evaluate_matrix_rotor_only (R : Int → α) (zI : Nat) (g h : Int → α) (L P : Int) (a b d : Int → α) (Hw Hv Hx YI aI : Nat) (imsqrt : Cx α → α)
+    (cpowi : Cx α → Int → Cx α) (sw cmin : Int) (mw : Int → Cx α) (fv : Nat) (e1 e2 n0 n1 : Int) (st : φ) :
+    Only α [Hw, Hv, Hx, zI, aI, YI, fv] st
+      (Gen.Wigner_evaluate_matrix_rotor (α := α) R zI g h L P a b d Hw Hv Hx YI aI imsqrt cpowi sw cmin mw fv e1 e2 n0 n1 st) := by
+  unfold Gen.Wigner_evaluate_matrix_rotor
+  simp only []
+  refine Only.trans _ _ _ _ ?_ (Only.mono _ _ _ _ (by intro x hx; simp only [List.mem_cons, List.mem_singleton, List.not_mem_nil, or_false] at hx ⊢; tauto) (contract_only _ _ fv _ _ _ _ _ _))
+  exact Only.mono _ _ _ _ (by intro x hx; simp only [List.mem_cons, List.mem_singleton, List.not_mem_nil, or_false] at hx ⊢; tauto)
+    (GenMethod.sYlm_rotor_only R zI g h L P a b d Hw Hv Hx YI aI imsqrt cpowi sw cmin st)
 end
 end GenRotM
